@@ -18,6 +18,7 @@ EXPLANATION = (
     "of the Into renderers is validated for every prefix and every Into counterpart, R5 grouping preconditions: stable sort by first-seen group index and a "
     "separator-terminated prefix test, R6 nesting: the struct built at depth d is named by path component d and typed by the child_parents entry of the "
     "SAME prefix; From/into_existing address `<counterpart>.<child path>.<field>` (C01 child cells), R7 prefix strings are cumulative and dot-joined.")
+EXPLANATION += ' R10 convert_parent_child_field evaluated concretely on a tree with sibling groups and two nesting levels: every leaf carries the chain of its own enclosing members (sub_path) and the token path `.a.b` built from it, leaves in source order.'
 NOT_DECIDED = ["exactly-once construction of every nested struct for all permutations / interleavings / depths (algorithmic; believed to fail for paths such as v.m.k, v.n, v.m, "
                "but the checker cannot show it, so it is not recorded as a finding)", "runtime values"]
 
